@@ -426,7 +426,7 @@ func (k *ctx) checkAll(name string, ap path.AllShortest, negCycles bool) *vk.Fai
 				}
 			}
 			if r != "" {
-				if !k.negRow[s] && k.zeroCycleOnShortestWalk(s, t) {
+				if k.zeroCycleOnShortestWalk(s, t) {
 					k.softFail(vk.Failf("zero-cycle-cut/invalid-path", "%s (AllShortest.Between; a zero-weight cycle lies on a shortest walk): path %s: %s", k.where(name, s, t), showPath(p), r))
 				} else {
 					return vk.Failf(name+"/between-path", "%s: path %s: %s", k.where(name, s, t), showPath(p), r)
